@@ -27,6 +27,18 @@ TypesWithId = Union[
 ]
 
 
+# Property names that are keywords in Rust cannot be used as field identifiers;
+# such fields get a trailing underscore and an explicit serde rename.
+RUST_KEYWORDS = [
+    "abstract", "as", "async", "await", "become", "box", "break", "const",
+    "continue", "crate", "do", "dyn", "else", "enum", "extern", "false", "final",
+    "fn", "for", "if", "impl", "in", "let", "loop", "macro", "match", "mod", "move",
+    "mut", "override", "priv", "pub", "ref", "return", "self", "static", "struct",
+    "super", "trait", "true", "try", "type", "typeof", "unsafe", "unsized", "use",
+    "virtual", "where", "while", "yield",
+]  # fmt: skip
+
+
 class TypeData:
     def __init__(self) -> None:
         self._id_data: Dict[
@@ -577,7 +589,7 @@ def generate_property(
         else []
     )
 
-    if prop_name in ["type"]:
+    if prop_name in RUST_KEYWORDS:
         prop_name = f"{prop_name}_"
         if optional:
             optional = [
